@@ -340,6 +340,9 @@ package spec
 //@   requires tableOK(t)
 //@   ensures @named result != ""
 //@   ensures @fresh-name !(result in t.nonTerminals.table.dom)
+// a numbered helper name is built from a number no earlier helper has used (the counter only goes up, by one per name)
+//@   callsite Sprintf#0 requires @numbered-name-uses-a-new-number t.strings.counter == old(t.strings.counter) + 1
+//@   ensures @counter-never-goes-back t.strings.counter >= old(t.strings.counter)
 //@   modifies t.strings
 //@   ensures tableOK(t) && sameTables(t)
 
